@@ -2,6 +2,7 @@
 import io
 import numpy as np
 from hypothesis import strategies as st
+from vf import gens
 from vf.runner import hyp_run, run_cases, guard, fail, exc_failure
 
 THOROUGH_SCALE = 6      # multiplies every generated-case budget of the thorough tier
@@ -29,10 +30,14 @@ def shard_layout(tier):
 
 @st.composite
 def cases(draw, maxfr=16, maxdim=20):
-    kind = draw(st.sampled_from(["random", "random", "tubes", "tubes", "bridge_prev", "bridge_next", "chain"]))
+    kind = draw(st.sampled_from(["random", "random", "tubes", "tubes", "bridge_prev", "bridge_next", "chain", "deepcomb"]))
     nfr = draw(st.integers(1, maxfr))
     ns = draw(st.integers(3, maxdim))
     nf = draw(st.integers(3, maxdim))
+    if kind == "deepcomb":           # needs room for >= 6 bars and their bridges
+        ns = draw(st.integers(17, max(17, maxdim + 4)))
+        nf = draw(st.integers(15, max(15, maxdim + 4)))
+        nfr = min(nfr, 4)
     fill = draw(st.sampled_from([0.03, 0.1, 0.2, 0.35, 0.6]))
     seed = draw(st.integers(0, 2 ** 31 - 1))
     thpos = draw(st.sampled_from(["low", "low", "mid", "at"]))
@@ -68,6 +73,11 @@ def build(case):
     occ = np.zeros((nfr, ns, nf), bool)
     if kind == "random":
         occ = rng.random_sample((nfr, ns, nf)) < case["fill"]
+    elif kind == "deepcomb":
+        # a blob whose provisional labels are united in a long chain on one frame; a few isolated pixels elsewhere
+        for k in range(nfr):
+            occ[k] = gens.build_image("deepcomb", ns, nf, int(rng.randint(0, 8))) > 0 if k % 2 == 0 else \
+                (rng.random_sample((ns, nf)) < 0.02)
     elif kind in ("tubes", "chain"):
         npaths = 1 + rng.randint(0, 4)
         starts = []
